@@ -175,7 +175,7 @@ int main(int argc, char **argv)
       if (cur < 0) fired++;
       if (ret < 0 || g_end < 0) {
          confirmed++;
-         printf("W synth_slack=%d real: ret=%s celt_ret=%d slack=%d bits_left=%d pkt=", cur, ret < 0 ? verr(ret) : "ok", g_celt_ret, g_slack, g_end);
+         printf("W ch=%d synth_slack=%d real: ret=%s celt_ret=%d slack=%d bits_left=%d pkt=", st + 1, cur, ret < 0 ? verr(ret) : "ok", g_celt_ret, g_slack, g_end);
          vhex(stdout, pk, len + 1); printf("\n"); fflush(stdout);
       }
    }
